@@ -1,2 +1,16 @@
 import J5V.Props.C07Walker
 #print axioms J5V.Props.C07Walker.C07W_src_facts_complete
+#print axioms J5V.Props.C07Walker.C07W_src_spec_wf
+#print axioms J5V.Props.C07Walker.C07W_walk_no_panic
+#print axioms J5V.Props.C07Walker.C07W_parse_walk_no_panic
+#print axioms J5V.Props.C07Walker.C07W_parse_types_ok
+#print axioms J5V.Props.C07Walker.C07W_walk_counterexample
+#print axioms J5V.Props.C07Walker.C07W_error_positions
+#print axioms J5V.Props.C07Walker.C07W_j5_root_builds
+#print axioms J5V.Props.C07Walker.C07W_parse_error_positions
+#print axioms J5V.Props.C07Walker.C07W_parse_body_positions
+#print axioms J5V.Props.C07Walker.C07W_walk_ok
+#print axioms J5V.Props.C07Walker.C07W_parse_walk_ok
+#print axioms J5V.Props.C07Walker.C07W_terminates
+#print axioms J5V.Props.C07Walker.C07W_parse_walk_terminates
+#print axioms J5V.Props.C07Walker.C07W_parse_walk_total
